@@ -10,8 +10,8 @@ PLAN = dict(
     assumptions=TRUSTED + ["SHA-256 from the Go standard library is shared by the code under test and the reference",
                            "a Read may return (0, nil) for a non-empty buffer at most 4 times in a row; more is reported as no-progress"],
     runs=[
-        dict(name="exh", run="^(TestExhaustive|TestCorpus)$", timeout=(300, 1800)),
-        dict(name="rapid", run="^TestPropRoundTrip$", checks=(10000, 100000), shards=(2, 8), timeout=(300, 3000)),
+        dict(name="exh", run="^(TestExhaustive|TestCorpus)$", timeout=(300, 3600)),
+        dict(name="rapid", run="^TestPropRoundTrip$", checks=(10000, 500000), shards=(2, 16), timeout=(300, 3600)),
     ],
     technique="exhaustive enumeration of small record sizes x all payload lengths 0..3rs+2 + rapid-generated record sizes 1..16384 / lengths around multiples up to 256 KiB, differential against an independent recursive MICE implementation, then decode round trip",
     level_text=("Exhaustive over drafts x small record sizes x every payload length up to three records plus two octets (all residues, exact multiples, "
